@@ -270,15 +270,21 @@ fn gen_cfg(rng: &mut Rng, n: usize) -> Cfg {
     Cfg {
         n,
         batch,
-        max_proofs: batch + rng.usize(4),
-        max_buckets: 1 + rng.usize(3),
-        max_verifies: 1 + rng.usize(5),
-        window_ns: (10 + rng.below(51)) * SEC,
+        // small limits, so that every limit is hit; occasionally an "unlimited" setting (the type's maximum)
+        max_proofs: if rng.chance(1, 16) { usize::MAX } else { batch + rng.usize(4) },
+        max_buckets: if rng.chance(1, 16) { usize::MAX } else { 1 + rng.usize(3) },
+        max_verifies: if rng.chance(1, 16) { usize::MAX } else { 1 + rng.usize(5) },
+        // u64::MAX stands for Duration::MAX (a window that never elapses), 1 for the shortest legal window
+        window_ns: match rng.below(24) {
+            0 => u64::MAX,
+            1 => 1,
+            _ => (10 + rng.below(51)) * SEC,
+        },
     }
 }
 
 fn gen_history(rng: &mut Rng, lib: &Library, cfg: &Cfg, len: usize, push_heavy: bool) -> Vec<Op> {
-    let w = cfg.window_ns;
+    let w = cfg.window_ns.clamp(2, 60 * SEC); // advance steps are chosen around the window length (bounded for the extreme windows)
     let mut ops = vec![];
     // a favourite subset of proofs makes duplicates / same-bucket pushes frequent
     let fav: Vec<usize> = (0..8).map(|_| rng.usize(lib.proofs.len())).collect();
@@ -612,7 +618,7 @@ pub fn execute(lib: &Library, cfg: &Cfg, ops: &[Op]) -> Outcome {
     let base = Instant::now();
     let mut viol: Vec<(String, String)> = vec![];
     let mut feats = Feats::default();
-    let limits = PoolLimits { max_proofs: cfg.max_proofs, max_buckets: cfg.max_buckets, max_verifies_per_window: cfg.max_verifies, verify_window: dur(cfg.window_ns) };
+    let limits = PoolLimits { max_proofs: cfg.max_proofs, max_buckets: cfg.max_buckets, max_verifies_per_window: cfg.max_verifies, verify_window: if cfg.window_ns == u64::MAX { Duration::MAX } else { dur(cfg.window_ns) } };
     let mut pool = match ProofPool::new(lib.data.verifier_data(), cfg.n, cfg.batch, limits) {
         Ok(p) => p,
         Err(e) => {
@@ -857,7 +863,7 @@ pub fn run(ctx: &Ctx, which: Which) {
     let n_hist = ctx.tier.pick(6_400usize, 200_000);
     let max_len = ctx.tier.pick(40usize, 80);
     ctx.set_rule(&format!(
-        "{} histories of up to {} operations (Push of a pre-proved library proof, EvictSettled(set), EvictOlderThan(d), Snapshot(key), RemoveBucket(key), Advance(d), Stats) over ProofPool instances with inner_num_leaves in {{1,2}}, batch 1..3, max_proofs batch..batch+3, max_buckets 1..3, max_verifies 1..5, window 10..60 virtual seconds; \
+        "{} histories of up to {} operations (Push of a pre-proved library proof, EvictSettled(set), EvictOlderThan(d), Snapshot(key), RemoveBucket(key), Advance(d), Stats) over ProofPool instances with inner_num_leaves in {{1,2}}, batch 1..3, max_proofs batch..batch+3, max_buckets 1..3, max_verifies 1..5 (each occasionally usize::MAX = unlimited), window 10..60 virtual seconds (occasionally 1 ns or Duration::MAX), expiry ages including the unrepresentable \"never expire\" idioms; \
          library per N: 110 valid proofs over 5 keys (two keys sharing a block hash, one key per asset/fee variation) with nullifiers from a pool of 10 (intra-proof repeats, saturating volumes), 6 dummy-key proofs, ~20 tampered proofs (valid length, fail verification, some claiming pooled nullifiers / other keys), 8 wrong-length proofs; Advance in {{0,1ns,W-1,W,W+1,2W,..}}. \
          Interpreted against the real pool and a model written from the statements under a frozen virtual clock; after every operation: push result/returned key/number of verifier calls vs the documented admission order, rejected push leaves the dumped state unchanged, dumped buckets/index/marks/ages vs model, bucket_stats exact, eviction/removal counts and returned proofs, snapshots pass the public-batch preflight. \
          Failing histories are shrunk by delta debugging. This check reports the {} clauses. Non-trivial: {}.",
